@@ -234,6 +234,14 @@ pub fn exec_flt_geo<S: Sc + BaseFloat>(op: &str, f: &str, a: &[Val<S>]) -> Optio
         ("euler_from_quat", [Q(q)]) => ERad(Euler::from(*q)),
         ("euler_new", [ARad(x), ARad(y), ARad(z)]) => ERad(Euler::new(*x, *y, *z)),
         ("euler_new", [ADeg(x), ADeg(y), ADeg(z)]) => EDeg(Euler::new(*x, *y, *z)),
+        // (the mint::EulerAngles conversions need `A: From<S> + Into<S>`, which neither Rad nor Deg provides: not callable with cgmath's own angles)
+        // Matrix::as_ptr / as_mut_ptr (trait methods, float matrices)
+        ("mat_ptr_read", [M2(m)]) => { let p = Matrix::as_ptr(m); Tup((0..4).map(|i| N(unsafe { *p.add(i) })).collect()) }
+        ("mat_ptr_read", [M3(m)]) => { let p = Matrix::as_ptr(m); Tup((0..9).map(|i| N(unsafe { *p.add(i) })).collect()) }
+        ("mat_ptr_read", [M4(m)]) => { let p = Matrix::as_ptr(m); Tup((0..16).map(|i| N(unsafe { *p.add(i) })).collect()) }
+        ("mat_ptr_write", [M2(m), I(i), N(s)]) => { let mut t = *m; if *i < 0 || *i >= 4 { panic!("index out of range") } let p = Matrix::as_mut_ptr(&mut t); unsafe { *p.add(*i as usize) = *s; } M2(t) }
+        ("mat_ptr_write", [M3(m), I(i), N(s)]) => { let mut t = *m; if *i < 0 || *i >= 9 { panic!("index out of range") } let p = Matrix::as_mut_ptr(&mut t); unsafe { *p.add(*i as usize) = *s; } M3(t) }
+        ("mat_ptr_write", [M4(m), I(i), N(s)]) => { let mut t = *m; if *i < 0 || *i >= 16 { panic!("index out of range") } let p = Matrix::as_mut_ptr(&mut t); unsafe { *p.add(*i as usize) = *s; } M4(t) }
         ("to_deg", [ARad(x)]) => ADeg(cgmath::Deg::from(*x)),
         ("to_rad", [ADeg(x)]) => ARad(cgmath::Rad::from(*x)),
         // ----- arcs
